@@ -59,6 +59,13 @@ def gen_program(rng, sw):
     # non-exported, overloaded helper families: part of PI like any other function, so a
     # partition may put the overloads of one family into different modules
     SIGS = [[["x", "int"]], [["x", "float"]], [["x", "int"], ["y", "int"]], [["x", "int"], ["y", "float"]]]
+    if rng.random() < 0.5:
+        # long parameter lists (long mangled names)
+        SIGS = SIGS + [
+            [["x", "int"]] + [[f"i{k}", "int"] for k in range(rng.randint(8, 11))],
+            [["x", "float"]] + [[f"f{k}", "float"] for k in range(rng.randint(6, 11))],
+            [["x", "int"]] + [[f"m{k}", rng.choice(["int", "float"])] for k in range(rng.randint(7, 10))],
+        ]
     nh = 0
     if shape == "random" and sw.get("free_helpers"):
         for fam in range(rng.randint(1, 2)):
@@ -123,7 +130,7 @@ def gen_scenario(seed, tier="quick"):
         "globals": swr.choice([0.0, 0.3, 0.6]),
         "shared_globals": swr.random() < 0.3,
         "extra_imports": swr.choice([0.0, 0.0, 0.3]),
-        "cli": swr.random() < (0.04 if tier == "quick" else 0.06),
+        "cli": swr.random() < (0.05 if tier == "quick" else 0.07),
         "dup": swr.random() < 0.18,
         "generations": 2 if swr.random() < 0.2 else 1,
         "recompile": swr.random() < 0.2,
@@ -132,9 +139,17 @@ def gen_scenario(seed, tier="quick"):
         "helpers": swr.random() < 0.4,
         "free_helpers": swr.random() < 0.3,
     }
+    if sw["free_helpers"] and sw["shape"] == "random" and swr.random() < 0.25:
+        sw["cli"] = True
     prng = core.sub_rng(seed, "c16.prog")
     funcs, nm = gen_program(prng, sw)
     names = prng.sample(NAME_POOL, nm)
+    if swr.random() < 0.3:
+        # a family of near-identical names: one base with different short tails (plural,
+        # trailing letters of ".nslir", digits, case) - what name normalisation tends to merge
+        base = prng.choice(["util", "shader", "color", "lib", "m", "Mod", "geo", "x", "sin"])
+        tails = prng.sample(["", "s", "r", "l", "n", "i", "ls", "rs", "ir", "2", "_", "er", "S", "ss", "nsl"], nm)
+        names = [base + t for t in tails]
     modules = []
     for m in range(nm):
         modules.append({"name": names[m], "imports": [], "place": [], "struct": None, "helpers": [], "layout": "std"})
